@@ -163,8 +163,9 @@ func genFlows(t *rapid.T) []aggh.FlowDef {
 }
 
 type stream struct {
-	end uint32
-	tot [4]uint64
+	start uint32
+	end   uint32
+	tot   [4]uint64
 }
 
 func genCase(t *rapid.T) Case {
@@ -181,7 +182,8 @@ func genCase(t *rapid.T) Case {
 		k := fmt.Sprintf("%d%s", fi, side)
 		s := streams[k]
 		if s == nil {
-			s = &stream{end: 1000 + uint32(rapid.IntRange(0, 50).Draw(t, "e0"))}
+			// each reporting node has its own view of when the flow started
+			s = &stream{start: uint32(rapid.IntRange(900, 1000).Draw(t, "start")), end: 1000 + uint32(rapid.IntRange(0, 50).Draw(t, "e0"))}
 			streams[k] = s
 		}
 		if used[fi] == nil {
@@ -193,7 +195,7 @@ func genCase(t *rapid.T) Case {
 		}
 		used[fi][e] = true
 		s.end = e
-		r := aggh.Rec{Flow: fi, Side: side, Start: 1000, End: e, TCPState: rapid.SampledFrom([]string{"ESTABLISHED", "TIME_WAIT", "CLOSE", ""}).Draw(t, "tcp")}
+		r := aggh.Rec{Flow: fi, Side: side, Start: s.start, End: e, TCPState: rapid.SampledFrom([]string{"ESTABLISHED", "TIME_WAIT", "CLOSE", ""}).Draw(t, "tcp")}
 		for i := range r.Tot {
 			switch rapid.IntRange(0, 5).Draw(t, "grow") {
 			case 0: // unchanged
